@@ -1319,8 +1319,11 @@ func (ctx Ctx) exprSpecial(e ast.Expr, isSpecial bool) coq.Expr {
 	case *ast.StarExpr:
 		return ctx.derefExpr(e.X)
 	case *ast.TypeAssertExpr:
-		// TODO: do something with the type
-		return ctx.expr(e.X)
+		// x.(T) used to be translated as x: wrong whenever x holds a converted
+		// value (a struct of methods), for the two-valued form and for a
+		// failing assertion
+		ctx.unsupported(e, "type assertion")
+		return nil
 	case *ast.FuncLit:
 		return ctx.funcLit(e)
 	default:
